@@ -98,10 +98,11 @@ Section Derive.
     all: try (apply d_node; asolve).
   Qed.
 
-  Theorem atoms_cfg_ok : pcfg_ok C.
+  Theorem atoms_cfg_ok : cFuelOk C -> pcfg_ok C.
   Proof.
-    constructor.
+    intros Hfuel. constructor.
     - apply (a_rel C H).
+    - exact Hfuel.
     - apply d_all_levels; auto with atoms.
     - apply d_all_levels; auto with atoms.
     - apply (a_push_ignored C H).
